@@ -195,7 +195,7 @@ func c11StreamOp(s *Stream, total int) {
 
 // Stream primitives over an arbitrary limited input: no panic, no allocation above the input
 // size (plus a re-created header), values never larger than the input.
-//verif:opt unwind=16 budget_s=900 split=14 max_split=24
+//verif:opt unwind=16 budget_s=900 thorough.budget_s=3000 split=14 thorough.split=28 max_split=24
 func H_C11_stream_arbitrary_input() {
 	first := verifCase(7 * 2)
 	maxLen := 9
